@@ -50,6 +50,21 @@ class Lane(LaneBase):
         for i in range(k):
             nodes, edges = self.rand_lagged_dag(rng)
             yield {'kind': 'topo', 'nodes': nodes, 'edges': edges}
+        # wide graphs: eight nearly unconstrained nodes over two or three time slices (tens of thousands of plain
+        # topological orders, a few hundred time-sorted ones) -- counted, not listed, against a subset DP
+        for i in range(2 if tier == 'quick' else 6):
+            lags = [[0, 1], [-1, 0], [-1, 0, 1]][i % 3]
+            names = [histories.ts_name(v, l) for l in lags for v in ('A', 'B', 'C', 'D')][:8]
+            rng.shuffle(names)
+            lag = {n: impl_parse(n) for n in names}
+            edges = []
+            for _ in range(i):
+                a, b = rng.sample(names, 2)
+                if lag[a] > lag[b]:
+                    a, b = b, a
+                if [a, b] not in edges and [b, a] not in edges and lag[a] < lag[b]:
+                    edges.append([a, b])
+            yield {'kind': 'wide', 'nodes': names, 'edges': edges}
 
     @staticmethod
     def rand_lagged_edges(rng, violating):
@@ -176,6 +191,56 @@ class Lane(LaneBase):
         return {'lines': [], 'impl': [], 'oracle': oracle, 'nontrivial': violating, 'key': repr(case['edges']) + case['via'],
                 'tags': ['conv:' + ('violating' if violating else 'ok')]}
 
+    def run_wide(self, case):
+        g = impl.new_graph('ts')
+        for n in case['nodes']:
+            g.add_node(n)
+        for s, d in case['edges']:
+            g.add_edge(s, d)
+        nodes = sorted(case['nodes'])
+        idx = {n: i for i, n in enumerate(nodes)}
+        lag = {n: g.get_node(n).time_lag for n in nodes}
+        edges = [tuple(e) for e in case['edges']]
+
+        def count(strict_time):
+            # linear extensions by DP over subsets: `before[i]` = the nodes that must already be placed
+            before = [0] * len(nodes)
+            for a, b in edges:
+                before[idx[b]] |= 1 << idx[a]
+            if strict_time:
+                for a in nodes:
+                    for b in nodes:
+                        if lag[a] < lag[b]:
+                            before[idx[b]] |= 1 << idx[a]
+            ways = [0] * (1 << len(nodes))
+            ways[0] = 1
+            for m in range(1 << len(nodes)):
+                if ways[m]:
+                    for i in range(len(nodes)):
+                        if not m >> i & 1 and before[i] & ~m == 0:
+                            ways[m | 1 << i] += ways[m]
+            return ways[-1]
+        oracle = []
+        fwd = lambda o: all(o.index(a) < o.index(b) for a, b in edges)
+        srt = lambda o: all(lag[o[i]] <= lag[o[i + 1]] for i in range(len(o) - 1))
+        allo = g.get_topological_order(return_all=True)
+        want = count(True)
+        if len(allo) != want or len({tuple(o) for o in allo}) != len(allo) or \
+                not all(sorted(o) == nodes and fwd(o) and srt(o) for o in allo):
+            oracle.append(f'return_all gave {len(allo)} orders ({len({tuple(o) for o in allo})} distinct); nodes={nodes} '
+                          f'edges={edges} have exactly {want} time-sorted topological orders')
+        order = g.get_topological_order()
+        if not (sorted(order) == nodes and fwd(order) and srt(order)):
+            oracle.append(f'default topological order {order} is not a time-sorted topological order of {edges}')
+        elif list(order) not in [list(o) for o in allo]:
+            oracle.append(f'the default topological order {order} is missing from return_all')
+        plain_all = g.get_topological_order(return_all=True, respect_time_ordering=False)
+        want_plain = count(False)
+        if len(plain_all) != want_plain or len({tuple(o) for o in plain_all}) != len(plain_all):
+            oracle.append(f'return_all without time ordering gave {len(plain_all)} orders, the graph has {want_plain}')
+        return {'lines': [], 'impl': [], 'oracle': oracle, 'nontrivial': True,
+                'key': repr((nodes, sorted(edges))), 'tags': [f'wide:n{len(nodes)}:orders{want}:plain{want_plain}']}
+
     def run_topo(self, case):
         g = impl.new_graph('ts')
         for n in case['nodes']:
@@ -190,7 +255,19 @@ class Lane(LaneBase):
         lag = {n: g.get_node(n).time_lag for n in nodes}
         head = f'{hxlist(nodes)} {hxedges(edges)} ' + (','.join(str(lag[n]) for n in nodes) if nodes else '.')
         lines, out, oracle = [], [], []
+        first = g.get_topological_order()
+        kept = list(first)
+        try:                                   # the caller owns what it was given: reverse it, empty it, ask again
+            first.reverse()
+            first.clear()
+        except Exception:  # noqa: BLE001  (an immutable result is fine too)
+            pass
         order = g.get_topological_order()
+        if list(order) != kept:
+            oracle_pre = [f'the default topological order changed from {kept} to {list(order)} after the caller changed the '
+                          f'list it had been given (no mutation of the graph in between)']
+        else:
+            oracle_pre = []
         lines.append(f'topo timevalid {head} {hxlist(order)}')
         out.append('1')
         if nodes:
@@ -201,7 +278,19 @@ class Lane(LaneBase):
             lines.append(f'nxtopo lex {hxlist(nn)} {hxedges([(str(a), str(b)) for a, b in nxg.edges])} '
                          + ','.join(str(g.get_node(x).time_lag) for x in nn))
             out.append(hxlist(order))
+        oracle += oracle_pre
+        a0 = g.get_topological_order(return_all=True)
+        kept_all = [list(o) for o in a0]
+        try:
+            for o in a0:
+                o.reverse()
+            a0.clear()
+        except Exception:  # noqa: BLE001
+            pass
         allo = g.get_topological_order(return_all=True)
+        if [list(o) for o in allo] != kept_all:
+            oracle.append('the list of all time-sorted topological orders changed after the caller changed the lists it had '
+                          'been given (no mutation of the graph in between)')
         lines.append(f'topo timeall {head}')
         out.append(hxlistlist(sorted(allo)))
         plain_all = g.get_topological_order(return_all=True, respect_time_ordering=False)
